@@ -406,6 +406,82 @@ def gen_case(rng, tier):
     return apply_layout(c)
 
 
+DARK_MODES = ['below', 'below', 'below', 'negative', 'negative', 'equal', 'negthr', 'raised']
+
+
+def gen_dark(rng, tier):
+    """signed / dark-frame-subtracted images placed relative to the threshold by their GLOBAL extremes:
+    brightest pixel below the threshold (by A/64 .. 8A, A = contrast of the image), wholly <= 0, brightest pixel
+    exactly ON the threshold, below a negative threshold, or floor raised far above zero.  The documented filter is
+    local (smoothed minus rolling average), so where the floor is negative the zero border of the Gaussian and the
+    subtraction of a negative background lift pixels ABOVE the image's maximum: such frames still have kept pixels.
+    Any shortcut keyed on image.max() / min() / sign against the threshold is visible here and nowhere else
+    (in every other family the brightest pixel is >= the threshold)."""
+    nd = rng.choice([2, 2, 3])
+    if nd == 2:
+        m = 12 if tier == 'quick' else 16
+        shape = (rng.randint(3, m), rng.randint(3, m))
+    else:
+        m = 6 if tier == 'quick' else 7
+        shape = tuple(rng.randint(2, m) for _ in range(3))
+    pass_truncate = rng.random() < 0.5
+    truncate = rng.choice([2.0, 3.0, 4.0]) if pass_truncate else 4.0
+    ls = [rng.choice([0.0, 0.5, 1.0, 1.0, 1.5, 2.0, 0.75]) for _ in range(nd)]
+    ll = [rng.choice([x for x in (1, 3, 5, 7, 9, 11) if x > s]) for s in ls]
+    lshort = ls[0] if len(set(ls)) == 1 and rng.random() < 0.6 else tuple(ls)
+    llong = ll[0] if len(set(ll)) == 1 and rng.random() < 0.6 else tuple(ll)
+    bkind = rng.choice(['blobs', 'blobs', 'int', 'float', 'noise', 'noise', 'impulse', 'ramp', 'const'])
+    if bkind == 'noise':      # zero-mean, dyadic
+        base = np.array([round(rng.gauss(0, 1) * 64) / 64 for _ in range(int(np.prod(shape)))], dtype=float).reshape(shape)
+    else:
+        base = gen_image(rng, shape, bkind)
+    if bkind not in ('float', 'noise') and rng.random() < 0.4:
+        base = base / 256.0                                   # [0, 1]-scaled frames (exact)
+    A = float(np.ptp(base)) or 1.0
+    bmax = float(base.max())
+    mode = rng.choice(DARK_MODES)
+    grid = lambda x: math.floor(x * 1024) / 1024              # keeps the pixel literals short
+    frac = rng.choice([1, 2, 4, 8, 16]) / 32.0
+    delta = A * rng.choice([1 / 64., 0.25, 1.0, 8.0])
+    if mode == 'below':
+        thr = rng.choice([None, None, 1, grid(frac * A) + 1 / 1024.])
+        te = 1 / 255. if thr is None else float(thr)
+        target = grid(te - delta)
+        if not target < te:
+            target -= 1 / 1024.
+    elif mode == 'negative':
+        thr = rng.choice([None, 0.0, 0.0, 1, grid(frac * A)])
+        target = rng.choice([0.0, -grid(delta), -grid(delta)])
+    elif mode == 'equal':
+        thr = rng.choice([1, 0.0, grid(frac * A) + 1 / 1024.])
+        target = float(thr)
+    elif mode == 'negthr':
+        thr = -(grid(frac * A) + 1 / 1024.)
+        target = grid(thr - delta)
+        if not target < thr:
+            target -= 1 / 1024.
+    else:                     # raised: floor far above zero
+        thr = rng.choice([None, 0.0, 1, grid(frac * A)])
+        target = bmax + A * rng.choice([8.0, 64.0])
+    img = base - (bmax - target)
+    c = dict(kind='bandpass', image=img, lshort=lshort, llong=llong, truncate=float(truncate), pass_truncate=pass_truncate,
+             threshold=thr, layout=rng.choice(['C', 'C', 'F', 'strided', 'readonly']), style='dark', image_kind=bkind, dark_mode=mode)
+    return apply_layout(c)
+
+
+def dark_tally(chk, c, ik, out):
+    """input distribution of the dark / signed family, told from the inputs and the observed output"""
+    if not c.get('dark_mode') or c['kind'] != 'bandpass':
+        return
+    img, te = c['image'], eff_threshold(c)
+    chk.tally('dark: mode=%s' % c['dark_mode'])
+    mx = float(img.max()) if img.size else 0.0
+    rel = 'below' if mx < te else ('on' if mx == te else 'above')
+    chk.tally('dark: brightest input pixel %s the threshold%s' % (rel, ', floor negative' if img.size and float(img.min()) < 0 else ''))
+    if ik == 0 and isinstance(out, np.ndarray) and rel != 'above':
+        chk.tally('dark: brightest input pixel not above the threshold and the output %s' % ('has kept pixels' if np.count_nonzero(out) else 'is all zero'))
+
+
 def resolve_exact_threshold(rng, c):
     """exact cases: put the threshold exactly on one of the (exactly computed) unclipped values"""
     if c['threshold'] != 'pick':
@@ -481,6 +557,26 @@ def corpus():
     out.append(mk('boxcar', v, 1, (3, 5, 7), 0.0))
     out.append(mk('bandpass', v, (1.0, 1.0, 5.0), (3, 3, 5), 0.0, 1))
     out.append(mk('bandpass', 45.0 * np.arange(60, dtype=float).reshape(3, 4, 5), 0.0, (3, 5, 3), 45.0))
+    # signed / dark-frame-subtracted frames: floor below zero, brightest pixel below the threshold; the documented
+    # filter still keeps pixels (zero border of the Gaussian, negative background subtracted)
+    yy, xx = np.mgrid[:12, :11]
+    bl = np.floor(200 * np.exp(-((yy - 4) ** 2 + (xx - 6) ** 2) / 8.) + 150 * np.exp(-((yy - 9) ** 2 + (xx - 2) ** 2) / 8.))
+    nz = ((yy * 37 + xx * 101 + yy * xx * 7) % 64 - 32) / 16.
+    zz, y3, x3 = np.mgrid[:5, :6, :6]
+    b3 = np.floor(64 * np.exp(-((zz - 2) ** 2 + (y3 - 3) ** 2 + (x3 - 2) ** 2) / 6.)) / 64.
+    for c in (mk('bandpass', bl / 256. - 1.5, 1, 9, None, pt=False),
+              mk('bandpass', bl - 500., 2, 11, 1),
+              mk('bandpass', bl - 500., 1, (5, 7), 1, 3, layout='F'),
+              mk('bandpass', bl - 200., 1, 5, 0.0),                       # brightest pixel exactly 0 = threshold
+              mk('bandpass', bl - 199., 1, 5, 1),                         # brightest pixel exactly 1 = threshold
+              mk('bandpass', nz - 10., 1, 5, 0.125),
+              mk('bandpass', nz - 10., 0.0, 3, 0.125),                    # no Gaussian pass: image minus rolling average
+              mk('bandpass', nz - 10., 1, 5, -0.5, layout='strided'),
+              mk('bandpass', b3 - 2., 1, (3, 5, 5), 1 / 64.),
+              mk('bandpass', b3 - 2., (0.5, 1.0, 1.0), 3, None, pt=False),
+              mk('bandpass', bl + 5000., 1, 7, 1)):                       # floor raised far above zero
+        c['dark_mode'] = 'corpus'
+        out.append(c)
     for c in out:
         c['exact'] = is_exact_case(c)
     return out
@@ -616,6 +712,7 @@ def evaluate(chk, cases):
         lst.append((c, case_term(c, ik, out)))
         chk.tally('kind=%s %dD' % (c['kind'], c['image'].ndim))
         chk.tally('style=' + c['style'])
+        dark_tally(chk, c, ik, out)
         chk.tally('layout=' + c.get('layout', 'C'))
         chk.tally('impl outcome=%s' % {0: 'image', 1: 'scale error', 2: 'odd error', 3: 'other exception'}[ik])
         if c.get('exact'):
@@ -655,6 +752,10 @@ def run(chk):
             chk.tally('skipped: float truncate*sigma rounds across a half-integer')
             continue
         cases.append(c)
+    for k in range(36 if chk.tier == 'quick' else 450):
+        c = gen_dark(rng, chk.tier)
+        c['exact'] = False
+        cases.append(c)
     for c in cases:
         p = [0, 1, 2]
         rng.shuffle(p)
@@ -667,6 +768,10 @@ def run(chk):
                             "multiple-of-prod(llong) images in C / Fortran / strided-view / read-only layouts; lshort dyadic or random per axis or scalar incl. 0 and "
                             "truncate*lshort exactly k+1/2; odd llong scalar or per axis, also 1, even, and <= lshort; threshold None / 0 / negative / on a pixel value; "
                             "bandpass, lowpass, boxcar each compared pixelwise with the exact Q model inside Coq; gaussian_kernel compared with the model kernel; "
+                            "dark / signed family (style=dark, 36 quick / 450 thorough + corpus): blob, integer, dyadic-float, zero-mean-noise, impulse, ramp and constant frames (also /256) "
+                            "shifted so that the brightest pixel lies below the threshold by contrast/64 .. 8*contrast (threshold None = 1/255, 1, or a fraction of the contrast), is exactly ON the "
+                            "threshold, the whole frame is <= 0, lies below a negative threshold, or the floor is raised 8..64 contrasts above zero -- the frames on which the documented local filter "
+                            "exceeds the image's own maximum (negative background subtracted, zero border of the Gaussian), tallied by mode, by brightest-pixel-vs-threshold and by whether pixels are kept; "
                             "hand-written corpus first. non-trivial = implementation returned an image with >= 6 pixels that is not constant; distinct by content")
     chk.assumptions += ["route T: tools/py2coq_preproc.py (fail-closed) and the vocabulary Model/PyPreproc.v are trusted: validate_tuple is a named primitive (its AST is compared with a pinned copy), "
                         "@memo on gaussian_kernel is read as transparent, np.array(image, dtype=float) / image.copy() as value-preserving new arrays (aliasing is observed by the monitor, not modelled), "
